@@ -43,7 +43,8 @@ var errWorldDead = fmt.Errorf("node stopped: %w", context.Canceled)
 
 type parkedCall struct {
 	label  string
-	seq    int
+	seq    int // 0 until the scheduler first looks at the call (numbers are given in a canonical order, see Parked)
+	arrive int
 	method string
 	desc   string
 	ctx    context.Context
@@ -59,6 +60,8 @@ type World struct {
 	mu     sync.Mutex
 	parked []*parkedCall
 	seq    map[string]int
+	// arrivals orders calls of one component that carry the same request; nothing else depends on it
+	arrivals int
 	dead   bool
 	setup  bool
 	rec    *Recorder
@@ -95,8 +98,8 @@ func (w *World) park(ctx context.Context, label, method, desc string, epoch int)
 		w.mu.Unlock()
 		return replyDead
 	}
-	w.seq[label]++
-	p := &parkedCall{label: label, seq: w.seq[label], method: method, desc: desc, ctx: ctx, ch: make(chan int, 1)}
+	w.arrivals++
+	p := &parkedCall{label: label, arrive: w.arrivals, method: method, desc: desc, ctx: ctx, ch: make(chan int, 1)}
 	w.parked = append(w.parked, p)
 	w.mu.Unlock()
 	select {
@@ -119,9 +122,35 @@ func (w *World) park(ctx context.Context, label, method, desc string, epoch int)
 func (w *World) Quiesce() { synctest.Wait() }
 
 // Parked returns the parked calls sorted by (label, seq): arrival order inside the runtime is irrelevant.
+// Sequence numbers are given here, at a quiescent point, not on arrival: when a component has two goroutines that park
+// in the same step (a downloader the driver has replaced but that still retries, next to its successor), the calls that
+// have no number yet get theirs in the order of (method, argument), whichever goroutine the runtime ran first.
 func (w *World) Parked() []*parkedCall {
 	w.mu.Lock()
 	defer w.mu.Unlock()
+	var fresh []*parkedCall
+	for _, p := range w.parked {
+		if p.seq == 0 {
+			fresh = append(fresh, p)
+		}
+	}
+	sort.Slice(fresh, func(i, j int) bool {
+		a, b := fresh[i], fresh[j]
+		if a.label != b.label {
+			return a.label < b.label
+		}
+		if a.method != b.method {
+			return a.method < b.method
+		}
+		if a.desc != b.desc {
+			return a.desc < b.desc
+		}
+		return a.arrive < b.arrive
+	})
+	for _, p := range fresh {
+		w.seq[p.label]++
+		p.seq = w.seq[p.label]
+	}
 	out := append([]*parkedCall(nil), w.parked...)
 	sort.Slice(out, func(i, j int) bool {
 		if out[i].label != out[j].label {
